@@ -92,7 +92,8 @@ def cases(draw, tier="quick"):
         pool.append({"x": x, "Q2": q2, "y": draw(st.sampled_from([0.3, 0.7, 1.0])), "kind": kind})
     hv = draw(st.lists(st.sampled_from(["total", "light", "charm"]), min_size=1, max_size=2, unique=True))
     sfk = ["F2", "FL", "F3"]
-    xsk = ["XSHERANC", "XSHERANCAVG", "F1"] if process != "CC" else ["XSHERACC", "XSCHORUSCC", "FW", "F1"]
+    # every cross-section kind of the process (points share their y values: 0.3, 0.7, 1.0)
+    xsk = ["XSHERANC", "XSHERANCAVG", "F1"] if process != "CC" else ["XSHERACC", "XSCHORUSCC", "XSNUTEVCC", "XSNUTEVNU", "XSFPFCC", "FW", "F1"]
     names = [f"{k}_{h}" for h in hv for k in sfk + xsk]
     chosen = draw(st.lists(st.sampled_from(names), min_size=1, max_size=4, unique=True))
     plan = []
